@@ -123,6 +123,7 @@ type Unit struct {
 	defMemo     map[string]string
 	lastDef     string
 	ifacePay    map[string]Term
+	outer       map[string]Val // names of enclosing functions a closure contract mentions without the closure capturing them
 }
 
 func (un *Unit) note(s string) { un.notes[s] = true }
